@@ -253,6 +253,12 @@ FIXED_HISTORIES = [
     [("env", ENVS.index(("I", None, "none"))), ("prog", 0, EXPRS.index("size(s)"), 0), ("eval", 0, 15), ("prog", 0, EXPRS.index("shout(s)"), 3), ("eval", 1, 15), ("reeval", 0),
      ("prog", 0, EXPRS.index("size(s)"), 0), ("eval", 2, 15), ("prog", 0, EXPRS.index("shout(s)"), 0), ("eval", 3, 15),
      ("env", ENVS.index(("C", None, "none"))), ("prog", 1, EXPRS.index("size(s)"), 0), ("eval", 4, 15)],
+    # an environment with dotted declarations first, then environments without declarations whose bindings use the declared prefix as a plain map
+    [("env", ENVS.index(("I", None, "dotted"))), ("prog", 0, EXPRS.index("x + 1"), 0), ("eval", 0, 0),
+     ("env", ENVS.index(("I", None, "none"))), ("prog", 1, EXPRS.index("a.c"), 0), ("eval", 1, BINDINGS.index({"a": {"b": 7, "c": 8}, "x": 2})),
+     ("env", ENVS.index(("C", None, "none"))), ("prog", 2, EXPRS.index("a.c"), 0), ("eval", 2, BINDINGS.index({"a": {"b": 7, "c": 8}, "x": 2})),
+     ("prog", 1, EXPRS.index("a"), 0), ("eval", 3, BINDINGS.index({"a": {"b": 7}})), ("env", ENVS.index(("C", "p", "plain"))), ("prog", 3, EXPRS.index("s + 'x'"), 0), ("eval", 4, 15),
+     ("env", ENVS.index(("I", None, "none"))), ("prog", 4, EXPRS.index("s.size()"), 0), ("eval", 5, BINDINGS.index({"s": "abc"})), ("prog", 4, EXPRS.index("x + y"), 0), ("eval", 6, 0)],
     # an argument spelled slightly wrong, before and after the right spelling has been used by another program (in another environment)
     [("env", ENVS.index(("I", None, "none"))), ("prog", 0, EXPRS.index("timestamp('2009-02-13T23:31:30Z').getHours(z)"), 0), ("eval", 0, BINDINGS.index({"z": "asia/tokyo"})),
      ("env", ENVS.index(("C", None, "none"))), ("prog", 1, EXPRS.index("timestamp('2009-02-13T23:31:30Z').getDate(z) + size(z)"), 0), ("eval", 1, BINDINGS.index({"z": "Asia/Tokyo"})),
